@@ -1,7 +1,7 @@
 #!/bin/bash
 # usage: tools/confirm_mutant.sh <ID> <n>   (works inside the scratch worktree /tmp/mut/<ID>)
 # Confirms independently: patch applies; suite passes (debug + release) with it; demo fails with it, passes without.
-ID="$1"; N="$2"; W=/tmp/mut/$ID; O=$W/out
+ID="$1"; N="$2"; W=${MUT_BASE:-/tmp/mut}/$ID; O=$W/out
 cd "$W" || exit 2
 export CARGO_NET_OFFLINE=true
 git checkout -q -- . ; rm -rf bitbybit-tests/tests
